@@ -24,7 +24,7 @@ VALUE_RULE = (
     "bounded-exhaustive enumeration of named input families (DESIGN.md 3.4) executed on the real parse_float in each "
     "configuration; every case is judged by the exact rounding-interval oracle. A case is non-trivial when the real code "
     "leaves the plain fast path for it (disguised fast path, Eisel-Lemire/Bellerophon, big-integer path), as classified "
-    "through the verif hook; distinct = distinct (integer, fraction, exponent) triples among those, counted with a hash set."
+    "through the verif hook; distinct = distinct (integer, fraction, exponent) triples among those, counted with a hash set (capped at 16 M hashes: beyond that the reported count is a lower bound)."
 )
 
 PROPS = {
